@@ -102,8 +102,43 @@ def sx_int(x):
     if type(x) is SymInt:
         return x
     if type(x) is SymStr:
-        raise Unsupported("int() of symbolic string")
+        return _int_of_symstr(x)
     return int(x)
+
+
+def _int_of_symstr(s):
+    """int(str) for a symbolic string: the character classes are forked, validity is decided by
+    the interpreter on a class-representative, the value is a z3 polynomial of the digit chars"""
+    import z3
+    from .core import mkbool, mkint
+    from . import symstr as SS
+
+    rep = []
+    digits = []
+    for c in s.cs:
+        if mkbool(SS._in_ranges(c, [(48, 57)])):
+            rep.append("1")
+            digits.append(c)
+        elif mkbool(SS._in_ranges(c, SS.SPACE)):
+            rep.append(" ")
+        elif mkbool(SS._ceq(c, 43)):
+            rep.append("+")
+        elif mkbool(SS._ceq(c, 45)):
+            rep.append("-")
+        elif mkbool(SS._ceq(c, 95)):
+            rep.append("_")
+        elif mkbool(SS._in_ranges(c, SS.DECIMAL)):
+            raise Unsupported("non-ASCII decimal digit in int()")
+        else:
+            rep.append("x")
+    r = "".join(rep)
+    int(r)  # raises ValueError exactly when int() of any member of the class does
+    val = z3.IntVal(0)
+    for d in digits:
+        val = val * 10 + ((d if not isinstance(d, int) else z3.IntVal(d)) - 48)
+    if "-" in r:
+        val = -val
+    return mkint(val)
 
 
 def sx_ord(x):
